@@ -348,3 +348,79 @@ Check stale_task_removes_live_dynamic_peer_refuted :
     /\ lookup a (gl_peers g') = Some p /\ pe_conn_passive p = true
     /\ lookup a (gl_peers (stale_task_end_unchecked g' a)) = None.
 Print Assumptions stale_task_removes_live_dynamic_peer_refuted.
+
+(* (21) UpdatePeer does not turn a dynamic neighbour into a permanent one (finding C16-6 repaired) nor the reverse, keeps the admin-down mark, and leaves every other neighbour alone. *)
+Theorem update_keeps_dynamic :
+  forall (g : global) (a : ipaddr) (u : upd) (p : peer),
+    keys_ok g -> lookup a (gl_peers g) = Some p ->
+    (forall p', lookup a (gl_peers (update_peer g a u)) = Some p' ->
+                pe_delete p' = pe_delete p /\ pe_admin_down p' = pe_admin_down p)
+    /\ (forall b, b <> a -> lookup b (gl_peers (update_peer g a u)) = lookup b (gl_peers g)).
+Proof. exact C16_update_keeps_dynamic. Qed.
+Check update_keeps_dynamic :
+  forall (g : global) (a : ipaddr) (u : upd) (p : peer),
+    keys_ok g -> lookup a (gl_peers g) = Some p ->
+    (forall p', lookup a (gl_peers (update_peer g a u)) = Some p' ->
+                pe_delete p' = pe_delete p /\ pe_admin_down p' = pe_admin_down p)
+    /\ (forall b, b <> a -> lookup b (gl_peers (update_peer g a u)) = lookup b (gl_peers g)).
+Print Assumptions update_keeps_dynamic.
+
+(* (22) A connection admitted while an earlier connection of the same neighbour is ending (between apply_disconnect and the final lock of PeerSession::run) keeps its neighbour record and its connection mark (finding C16-7 repaired). *)
+Theorem live_connection_keeps_record :
+  forall (g : global) (a : ipaddr) (ro rn : role) (s : session),
+    snd (step_op g (ODisconnectRace a ro rn)) = Some (Some s) ->
+    exists p, lookup a (gl_peers (fst (step_op g (ODisconnectRace a ro rn)))) = Some p /\ conn_of p rn = true.
+Proof. exact C16_live_connection_keeps_record. Qed.
+Check live_connection_keeps_record :
+  forall (g : global) (a : ipaddr) (ro rn : role) (s : session),
+    snd (step_op g (ODisconnectRace a ro rn)) = Some (Some s) ->
+    exists p, lookup a (gl_peers (fst (step_op g (ODisconnectRace a ro rn)))) = Some p /\ conn_of p rn = true.
+Print Assumptions live_connection_keeps_record.
+
+(* (23) Record of finding C16-7: with the no-sessions test taken before the lock, the ending task removes the dynamic neighbour whose new connection is alive. *)
+Theorem stale_no_sessions_refuted :
+  exists (g g' : global) (a : ipaddr) (s : session) (p : peer),
+    fst (step_op g (ODisconnectRace a RPassive RPassive)) = g'
+    /\ snd (step_op g (ODisconnectRace a RPassive RPassive)) = Some (Some s)
+    /\ lookup a (gl_peers g') = Some p /\ pe_conn_passive p = true
+    /\ lookup a (gl_peers (stale_task_end_unchecked g' a)) = None.
+Proof. exact C16_stale_no_sessions_refuted. Qed.
+Check stale_no_sessions_refuted :
+  exists (g g' : global) (a : ipaddr) (s : session) (p : peer),
+    fst (step_op g (ODisconnectRace a RPassive RPassive)) = g'
+    /\ snd (step_op g (ODisconnectRace a RPassive RPassive)) = Some (Some s)
+    /\ lookup a (gl_peers g') = Some p /\ pe_conn_passive p = true
+    /\ lookup a (gl_peers (stale_task_end_unchecked g' a)) = None.
+Print Assumptions stale_no_sessions_refuted.
+
+(* (24) Record of finding C16-6: with delete-on-disconnect cleared by UpdatePeer, a dynamic neighbour's record survives the end of its last connection. *)
+Theorem update_clearing_delete_refuted :
+  exists (g1 : global) (a : ipaddr) (p : peer),
+    lookup a (gl_peers g1) = Some p /\ pe_delete p = true /\ pe_conn_passive p = true /\ pe_conn_active p = false
+    /\ lookup a (gl_peers (disconnect g1 a RPassive)) = None
+    /\ lookup a (gl_peers (disconnect (set_peers g1 (update a (clear_delete p) (gl_peers g1))) a RPassive)) <> None.
+Proof. exact C16_update_clearing_delete_refuted. Qed.
+Check update_clearing_delete_refuted :
+  exists (g1 : global) (a : ipaddr) (p : peer),
+    lookup a (gl_peers g1) = Some p /\ pe_delete p = true /\ pe_conn_passive p = true /\ pe_conn_active p = false
+    /\ lookup a (gl_peers (disconnect g1 a RPassive)) = None
+    /\ lookup a (gl_peers (disconnect (set_peers g1 (update a (clear_delete p) (gl_peers g1))) a RPassive)) <> None.
+Print Assumptions update_clearing_delete_refuted.
+
+(* (25) UpdatePeer gives the neighbour the local AS that add_peer gives a neighbour configured that way, confederation identifier included (finding C16-8 repaired). *)
+Theorem update_local_asn_as_configured :
+  forall (g : global) (a : ipaddr) (u : upd) (p p' : peer) (pa : params),
+    keys_ok g ->
+    lookup a (gl_peers g) = Some p -> lookup a (gl_peers (update_peer g a u)) = Some p' ->
+    u_rs_client u = pe_rs_client p -> u_rr_client u = rr_client (pe_rr p) ->
+    pa_expected_asn pa = u_asn u -> pa_local_asn pa = u_local_asn u ->
+    pe_local_asn p' = pe_local_asn (build_peer g a pa) /\ pe_expected_asn p' = u_asn u.
+Proof. exact C16_update_local_asn_as_configured. Qed.
+Check update_local_asn_as_configured :
+  forall (g : global) (a : ipaddr) (u : upd) (p p' : peer) (pa : params),
+    keys_ok g ->
+    lookup a (gl_peers g) = Some p -> lookup a (gl_peers (update_peer g a u)) = Some p' ->
+    u_rs_client u = pe_rs_client p -> u_rr_client u = rr_client (pe_rr p) ->
+    pa_expected_asn pa = u_asn u -> pa_local_asn pa = u_local_asn u ->
+    pe_local_asn p' = pe_local_asn (build_peer g a pa) /\ pe_expected_asn p' = u_asn u.
+Print Assumptions update_local_asn_as_configured.
